@@ -136,6 +136,20 @@ fn to_peer<I: Ip>(e: &Ent<I>) -> Peer {
     }
 }
 
+/// ents[j] for a solver-chosen j, read with concrete indices only (Kani 0.68 mis-models some
+/// aggregate accesses through a symbolic index; scalar selection is safe and cheap).
+pub fn pick<I: Ip, const N: usize>(ents: &[Ent<I>; N], j: usize) -> Ent<I> {
+    let mut r = ents[0];
+    let mut i = 0;
+    while i < N {
+        if i == j {
+            r = ents[i];
+        }
+        i += 1;
+    }
+    r
+}
+
 /// `n` symbolic entries with pairwise distinct keys (the representation invariant).
 pub fn any_ents<I: KIp, const N: usize>() -> [Ent<I>; N] {
     let mut a = [any_ent::<I>(); N];
@@ -373,11 +387,12 @@ pub fn peermap_announce_step<I: KIp, const N: usize, const B: usize, const G: u8
     if N > 0 {
         let j: usize = kani::any();
         kani::assume(j < N);
-        if ents[j].key != key {
-            let (cnt, found) = post.find(&ents[j].key);
+        let ej = pick(&ents, j);
+        if ej.key != key {
+            let (cnt, found) = post.find(&ej.key);
             match found {
                 Some(p) => {
-                    assert!(cnt == 1 && p.is_seeder == ents[j].seeder && p.peer_id.0 == ents[j].peer_id && deadline_is(&p.valid_until, ents[j].deadline), "another peer's entry changed by announce");
+                    assert!(cnt == 1 && p.is_seeder == ej.seeder && p.peer_id.0 == ej.peer_id && deadline_is(&p.valid_until, ej.deadline), "another peer's entry changed by announce");
                 }
                 None => assert!(false, "another peer's entry lost by announce"),
             }
@@ -551,4 +566,283 @@ pub fn dbg_announce_n2_re(stop: bool, which: usize) {
     std::mem::forget(config);
     std::mem::forget(tx);
     std::mem::forget(_rx);
+}
+
+// ------------------------------------------------------------------ C10 / C11 / C20 / C01: cleaning step
+
+pub fn any_mode() -> AccessListMode {
+    let m: u8 = kani::any();
+    kani::assume(m < 3);
+    match m {
+        0 => AccessListMode::Allow,
+        1 => AccessListMode::Deny,
+        _ => AccessListMode::Off,
+    }
+}
+
+/// One real `TorrentMapShards::clean_and_get_statistics` over a single torrent holding exactly
+/// N symbolic peers (inline or heap representation), symbolic clock, symbolic access list of
+/// 0..1 entries and symbolic mode.
+///   C10: an entry survives <=> its deadline > now, whatever the representation / neighbours;
+///        survivors are untouched. C20: returned (torrents, peers) == what is stored afterwards;
+///        with peer_clients one PeerRemoved per expired peer, carrying its peer id.
+///   C11: a forbidden torrent is removed whatever its peers. C01: a torrent left without peers
+///        is removed (indistinguishable from never seen); heap map shrinks back when <= 2 remain.
+pub fn clean_step<I: KIp, const N: usize, const B: usize>(large: bool, peer_clients: bool) {
+    let ents = any_ents::<I, N>();
+    let m = mk_peer_map(&ents, large);
+    let info_hash = InfoHash(kani::any());
+    let maps: TorrentMapShards<I> = TorrentMapShards::new(1);
+    maps.0[0].write().insert(info_hash, Arc::new(RwLock::new(m)));
+    let mode = any_mode();
+    let config = mk_config(4, peer_clients, mode);
+    // access list: empty or one symbolic hash
+    let listed: [u8; 20] = kani::any();
+    let list_nonempty: bool = kani::any();
+    let mut list = aquatic_common::access_list::AccessList::default();
+    if list_nonempty {
+        list.insert_raw_for_verif(listed);
+    }
+    let shared = Arc::new(AccessListArcSwap::new(Arc::new(list)));
+    let mut cache = create_access_list_cache(&shared);
+    let now: u32 = kani::any();
+    let mut msgs: Vec<StatisticsMessage> = Vec::with_capacity(N + 1);
+    let mut writer: Option<BufWriter<File>> = None;
+
+    let (torrents, peers, hist) = maps.clean_and_get_statistics(
+        &config,
+        &mut msgs,
+        &mut cache,
+        mode,
+        SecondsSinceServerStart::new_raw(now),
+        &mut writer,
+    );
+    assert!(hist.is_none(), "histogram only when configured");
+
+    // ---- reference
+    let member = list_nonempty && listed == info_hash.0;
+    let allowed = match mode {
+        AccessListMode::Allow => member,
+        AccessListMode::Deny => !member,
+        AccessListMode::Off => true,
+    };
+    let mut kept = 0usize;
+    let mut kept_seeders = 0usize;
+    let mut i = 0;
+    while i < N {
+        if ents[i].deadline > now {
+            kept += 1;
+            if ents[i].seeder {
+                kept_seeders += 1;
+            }
+        }
+        i += 1;
+    }
+    // C20: totals are the ground truth of what is stored afterwards
+    assert!(peers == kept, "reported peer total != peers stored after cleaning");
+    let stored = allowed && kept > 0;
+    assert!(torrents == if stored { 1 } else { 0 }, "reported torrent total != torrents stored after cleaning");
+
+    let shard = maps.0[0].read();
+    match shard.get(&info_hash) {
+        None => {
+            assert!(!stored, "permitted torrent with live peers removed by cleaning");
+        }
+        Some(pm) => {
+            assert!(allowed, "torrent forbidden by the access list survived cleaning");
+            assert!(kept > 0, "torrent without peers survived cleaning");
+            let guard = pm.read();
+            let post = snapshot::<I, B>(&guard);
+            assert!(post.len == kept, "stored peers != peers with deadline in the future");
+            assert!(post.inv(), "cached seeder count inconsistent after cleaning");
+            assert!(post.seeders() == kept_seeders, "seeder count after cleaning");
+            assert!(post.large == (large && kept > SMALL_PEER_MAP_CAPACITY), "representation after cleaning (heap map must shrink when <= 2 peers remain)");
+            if N > 0 {
+                let j: usize = kani::any();
+                kani::assume(j < N);
+                let ej = pick(&ents, j);
+                let (cnt, found) = post.find(&ej.key);
+                if ej.deadline > now {
+                    // C10: never removed early, and untouched
+                    match found {
+                        Some(p) => assert!(cnt == 1 && p.is_seeder == ej.seeder && p.peer_id.0 == ej.peer_id && deadline_is(&p.valid_until, ej.deadline), "live peer changed by cleaning"),
+                        None => assert!(false, "peer removed before its deadline"),
+                    }
+                } else {
+                    assert!(found.is_none(), "peer still stored at or after its deadline");
+                }
+            }
+            let sc = guard.scrape_statistics();
+            assert!(sc.seeders.0.get() as usize == kept_seeders && sc.leechers.0.get() as usize == kept - kept_seeders, "scrape counts after cleaning");
+        }
+    }
+    // C20: one PeerRemoved per expired peer (only when client statistics are on)
+    let nm = msgs.len();
+    if peer_clients {
+        assert!(nm == N - kept, "number of PeerRemoved messages != expired peers");
+        let pid: [u8; 20] = kani::any();
+        let mut removed_msgs = 0usize;
+        let mut i = 0;
+        while i < B {
+            if i < nm {
+                if let StatisticsMessage::PeerRemoved(p) = &msgs[i] {
+                    if p.0 == pid {
+                        removed_msgs += 1;
+                    }
+                } else {
+                    assert!(false, "unexpected statistics message from cleaning");
+                }
+            }
+            i += 1;
+        }
+        let mut expired_with_pid = 0usize;
+        let mut i = 0;
+        while i < N {
+            if ents[i].deadline <= now && ents[i].peer_id == pid {
+                expired_with_pid += 1;
+            }
+            i += 1;
+        }
+        assert!(removed_msgs == expired_with_pid, "PeerRemoved messages per peer id != expired peers carrying it");
+    } else {
+        assert!(nm == 0, "statistics messages although peer_clients is off");
+    }
+    kani::cover!(N == 0 || kept == N, "nothing expired");
+    kani::cover!(N == 0 || kept == 0, "everything expired");
+    kani::cover!(N < 2 || (kept > 0 && kept < N), "some expired");
+    kani::cover!(!allowed, "forbidden torrent");
+    drop(shard);
+    std::mem::forget(msgs);
+    std::mem::forget(maps);
+    std::mem::forget(config);
+    std::mem::forget(cache);
+    std::mem::forget(shared);
+}
+
+// ------------------------------------------------------------------ constructors for other harness modules
+
+/// TorrentMaps with one shard per family (the shard index is `hash[0] % shards`; the number of
+/// shards does not enter any checked property).
+pub fn mk_torrent_maps() -> TorrentMaps {
+    TorrentMaps { ipv4: TorrentMapShards::new(1), ipv6: TorrentMapShards::new(1) }
+}
+
+/// number of torrents stored (both families)
+pub fn torrent_count(t: &TorrentMaps) -> usize {
+    t.ipv4.0[0].read().len() + t.ipv6.0[0].read().len()
+}
+
+// ------------------------------------------------------------------ C20 / C11: whole cleaning pass (both families)
+
+/// `TorrentMaps::clean_and_update_statistics` on one IPv4 torrent (N4 peers) and one IPv6 torrent
+/// (N6 peers), symbolic clock / access list / mode / statistics switches.
+///   C20: when statistics are active the stored per-family totals equal what is stored
+///        afterwards in that family. C11: forbidden torrents are gone in both families, whatever
+///        the list contents (including the empty list in allow mode).
+pub fn clean_maps_step<const N4: usize, const B4: usize, const N6: usize, const B6: usize>(large4: bool, large6: bool) {
+    let e4 = any_ents::<Ipv4AddrBytes, N4>();
+    let e6 = any_ents::<Ipv6AddrBytes, N6>();
+    let h4 = InfoHash(kani::any());
+    let h6 = InfoHash(kani::any());
+    let maps = mk_torrent_maps();
+    maps.ipv4.0[0].write().insert(h4, Arc::new(RwLock::new(mk_peer_map(&e4, large4))));
+    maps.ipv6.0[0].write().insert(h6, Arc::new(RwLock::new(mk_peer_map(&e6, large6))));
+    let mode = any_mode();
+    let mut config = mk_config(4, false, mode);
+    config.statistics.print_to_stdout = kani::any();
+    config.statistics.interval = if kani::any() { 5 } else { 0 };
+    let active = config.statistics.active();
+    let listed: [u8; 20] = kani::any();
+    let list_nonempty: bool = kani::any();
+    let mut list = aquatic_common::access_list::AccessList::default();
+    if list_nonempty {
+        list.insert_raw_for_verif(listed);
+    }
+    let shared = Arc::new(AccessListArcSwap::new(Arc::new(list)));
+    let now: u32 = kani::any();
+    let statistics: CachePaddedArc<IpVersionStatistics<SwarmWorkerStatistics>> = Default::default();
+    // sentinel values: must be overwritten exactly when statistics are active
+    statistics.ipv4.torrents.store(77, Ordering::Relaxed);
+    statistics.ipv4.peers.store(77, Ordering::Relaxed);
+    statistics.ipv6.torrents.store(77, Ordering::Relaxed);
+    statistics.ipv6.peers.store(77, Ordering::Relaxed);
+    let (tx, _rx) = crossbeam_channel::unbounded();
+    unsafe { STAT_LOG_LEN = 0 };
+
+    maps.clean_and_update_statistics(&config, &statistics, &tx, &shared, SecondsSinceServerStart::new_raw(now), false);
+
+    let allowed = |h: &InfoHash| {
+        let member = list_nonempty && listed == h.0;
+        match mode {
+            AccessListMode::Allow => member,
+            AccessListMode::Deny => !member,
+            AccessListMode::Off => true,
+        }
+    };
+    let mut kept4 = 0usize;
+    let mut i = 0;
+    while i < N4 {
+        if e4[i].deadline > now {
+            kept4 += 1;
+        }
+        i += 1;
+    }
+    let mut kept6 = 0usize;
+    let mut i = 0;
+    while i < N6 {
+        if e6[i].deadline > now {
+            kept6 += 1;
+        }
+        i += 1;
+    }
+    let stored4 = allowed(&h4) && kept4 > 0;
+    let stored6 = allowed(&h6) && kept6 > 0;
+    {
+        let s4 = maps.ipv4.0[0].read();
+        assert!(s4.get(&h4).is_some() == stored4, "IPv4 torrent stored after cleaning <=> permitted and has live peers");
+        if let Some(pm) = s4.get(&h4) {
+            let g = pm.read();
+            assert!(map_len(&g) == kept4, "IPv4 peers stored after cleaning");
+        }
+        let s6 = maps.ipv6.0[0].read();
+        assert!(s6.get(&h6).is_some() == stored6, "IPv6 torrent stored after cleaning <=> permitted and has live peers");
+        if let Some(pm) = s6.get(&h6) {
+            let g = pm.read();
+            assert!(map_len(&g) == kept6, "IPv6 peers stored after cleaning");
+        }
+    }
+    let r4t = statistics.ipv4.torrents.load(Ordering::Relaxed);
+    let r4p = statistics.ipv4.peers.load(Ordering::Relaxed);
+    let r6t = statistics.ipv6.torrents.load(Ordering::Relaxed);
+    let r6p = statistics.ipv6.peers.load(Ordering::Relaxed);
+    if active {
+        assert!(r4t == if stored4 { 1 } else { 0 }, "reported IPv4 torrent total != stored");
+        assert!(r4p == kept4, "reported IPv4 peer total != stored");
+        assert!(r6t == if stored6 { 1 } else { 0 }, "reported IPv6 torrent total != stored");
+        assert!(r6p == kept6, "reported IPv6 peer total != stored");
+    } else {
+        assert!(r4t == 77 && r4p == 77 && r6t == 77 && r6p == 77, "totals published although statistics are inactive");
+    }
+    assert!(unsafe { STAT_LOG_LEN } == 0, "no client messages expected (peer_clients off)");
+    assert!(held_total_is_zero(), "a lock is still held after the cleaning pass");
+    kani::cover!(active && stored4 && stored6, "both stored, statistics active");
+    kani::cover!(!allowed(&h4) && allowed(&h6), "one family forbidden");
+    kani::cover!(mode == AccessListMode::Allow && !list_nonempty, "allow mode with empty list");
+    std::mem::forget(maps);
+    std::mem::forget(config);
+    std::mem::forget(shared);
+    std::mem::forget(statistics);
+    std::mem::forget(tx);
+    std::mem::forget(_rx);
+}
+
+pub fn held_total_is_zero() -> bool {
+    crate::verif_shims::held_total() == 0
+}
+
+pub fn map_len<I: Ip>(m: &PeerMap<I>) -> usize {
+    match m {
+        PeerMap::Small(s) => s.0.len(),
+        PeerMap::Large(l) => l.peers.len(),
+    }
 }
